@@ -51,12 +51,22 @@ def stub_main(enable_geophires_logging_config=False, **k):
     os.chdir(os.path.dirname(os.path.abspath(GC.__file__)))       # as the real main() does
     with open(outp, 'w') as f:
         f.write('                               *****************\n                               ***CASE REPORT***\n                               *****************\n\n'
-                f'Simulation Metadata\n----------------------\n GEOPHIRES Version: DIGEST {effective(inp)}\n')
+                f'Simulation Metadata\n----------------------\n GEOPHIRES Version: DIGEST {effective(inp)}\n'
+                f'                           ***SUMMARY OF RESULTS***\n\n      Reservoir Model = DIGEST {effective(inp)}\n')
 
 
 def digest_of_result(result):
+    """what the returned object says it was computed from: the field the client PARSED when the run finished (falls back to the report file)."""
+    parsed = (result.result.get('metadata') or {}).get('Reservoir Model') if isinstance(getattr(result, 'result', None), dict) else None
+    if isinstance(parsed, str) and parsed.startswith('DIGEST '):
+        return parsed[len('DIGEST '):].strip()
+    return digest_of_file(result)
+
+
+def digest_of_file(result):
+    """what the report file the returned object points at (output_file_path) holds NOW."""
     txt = open(result.output_file_path).read()
-    return txt.split('DIGEST ', 1)[1].strip() if 'DIGEST ' in txt else None
+    return txt.split('DIGEST ', 1)[1].split('\n')[0].strip() if 'DIGEST ' in txt else None
 
 
 def run_history(seq, caching):
@@ -76,6 +86,9 @@ def run_history(seq, caching):
                 got = digest_of_result(r)
                 if got != want:
                     bad.append({'step': step, 'file content': CONTENTS[ci], 'result computed from': got, 'request means': want})
+                elif digest_of_file(r) != want:
+                    bad.append({'step': step, 'file content': CONTENTS[ci], 'report file of the returned result now holds': digest_of_file(r), 'request means': want,
+                                'finding': 'C08-cached-result-points-at-a-report-file-a-later-request-overwrote'})
                 if os.getcwd() != cwd or sys.argv is not argv:
                     bad.append({'step': step, 'cwd/argv not restored': os.getcwd()})
                     os.chdir(cwd)
@@ -211,6 +224,15 @@ def run_unit(unit):
         if not bad:
             log['discharged'] += 1
             continue
+        fid = bad[0].get('finding') if all(b.get('finding') for b in bad) else None
+        if fid:
+            log['cex'].append({'obligation': 'the report file a returned result points at (output_file_path) holds the report of that request [recorded: cache hit after a later '
+                                             'request on the same input path rewrote the shared result file]',
+                               'finding': fid, 'config': cfg, 'reproduced': True, 'inputs': {'history (indices into the content family)': list(seq)},
+                               'detail': bad[0], 'how': 'exhaustive enumeration of the bounded histories on real files with the real client and reader', 'attempts': []})
+            log['discharged'] += 1      # the companion obligation (the PARSED result is the request's own) held on this history
+            continue
+        bad = [b for b in bad if not b.get('finding')]
         log['cex'].append({'obligation': 'a client never returns a result computed from input content different from the request it was given (file rewritten between calls)',
                            'finding': None, 'config': cfg, 'reproduced': True, 'inputs': {'history (indices into the content family)': list(seq)},
                            'detail': bad[0], 'how': 'exhaustive enumeration of the bounded histories on real files with the real client and reader', 'attempts': []})
